@@ -118,3 +118,12 @@ def result_pred(E, res, m):
         return 'Ok'
     c = err_code(E, v)
     return 'Err(%d)' % ev(m, c)
+
+
+def find_mat(ctx, prefix, suffix):
+    """a lazily materialised value by the shape of its symbolic name"""
+    for k, v in ctx.memo.items():
+        if isinstance(k, tuple) and len(k) == 3 and k[0] == 'mat' and k[2].startswith(prefix) and k[2].endswith(suffix) \
+                and k[2].count('.') == (prefix + suffix).count('.') + k[2][len(prefix):].split('>')[0].count('.'):
+            return v
+    return None
